@@ -82,20 +82,50 @@ def rdir_term(c):
     return f"RWordList {zlist(c['ws'])}"
 
 
-def oracle_term(c):
-    if c["kind"] != "ascii":
-        return "[]"
+def strings_of(c):
+    """every string (code points) whose bytes in the output charset the case depends on"""
+    if c.get("t") == "items":
+        out = []
+        for it in c["items"]:
+            for d in ([it[1]] if it[0] == "one" else it[2]):
+                out += strings_of(d)
+        return out
+    if c["kind"] == "ascii":
+        return [x[1] for chunks in c["opsc"] for x in chunks if x[0] == "s"]
+    if c["kind"] == "lit":
+        return [x[1] for x in c["lops"] if x[0] == "l"]
+    return []
+
+
+def oracle_term(c, charset=None):
+    """Python's own str.encode for every string of the case: the definition of the charset (oracle)"""
+    charset = charset or c["charset"]
     seen, rows = set(), []
-    for chunks in c["opsc"]:
-        for x in chunks:
-            if x[0] == "s" and tuple(x[1]) not in seen:
-                seen.add(tuple(x[1]))
-                try:
-                    b = "".join(chr(k) for k in x[1]).encode(c["charset"])
-                    rows.append(f"({zlist(x[1])}, Some {zlist(list(b))})")
-                except UnicodeEncodeError:
-                    rows.append(f"({zlist(x[1])}, None)")
+    for st in strings_of(c):
+        if tuple(st) not in seen:
+            seen.add(tuple(st))
+            try:
+                b = "".join(chr(k) for k in st).encode(charset)
+                rows.append(f"({zlist(st)}, Some {zlist(list(b))})")
+            except UnicodeEncodeError:
+                rows.append(f"({zlist(st)}, None)")
     return "[" + "; ".join(rows) + "]"
+
+
+def rops_term(lops):
+    return "[" + "; ".join((f"RLit {zlist(x[1])}" if x[0] == "l" else f"RVal {zl(x[1])}") for x in lops) + "]"
+
+
+def rdirl_term(d):
+    if d["kind"] == "lit":
+        return f"RLitDir {C.coq_str(d['name'])} {rops_term(d['lops'])}"
+    return f"RPlain ({rdir_term(d)})"
+
+
+def ritem_term(it):
+    if it[0] == "one":
+        return f"ROne ({rdirl_term(it[1])})"
+    return f"RRepeat {zl(it[1])} [" + "; ".join(rdirl_term(d) for d in it[2]) + "]"
 
 
 def obs_term_dir(o):
@@ -133,6 +163,12 @@ def case_term(c, o):
                 + "; ".join(C.coq_str(h) for h in o["hints"]) + f"] {zl(o['min'])} {optz(o['max'])} {sizes}")
     if t == "dir":
         return (f"CDir {cbool(c['charset'] == 'bk')} ({rdir_term(c)}) {zl(c['addr'])} {oracle_term(c)} {ann_term(o)} ({obs_term_dir(o)})")
+    if t == "dirl":
+        return (f"CDirL {cbool(c['charset'] == 'bk')} {C.coq_str(c['name'])} {rops_term(c['lops'])} {zl(c['addr'])} "
+                f"{oracle_term(c)} {ann_term(o)} ({obs_term_dir(o)})")
+    if t == "items":
+        return (f"CItems {cbool(c['charset'] == 'bk')} [" + "; ".join(ritem_term(it) for it in c["items"]) + f"] {zl(c['addr'])} "
+                f"{oracle_term(c)} ({obs_term_dir(o)})")
     if t == "scan":
         exp = "None" if c.get("expect") is None else f"(Some ({zlist(c['expect'][0])}, {zlist(c['expect'][1])}))"
         k = o["kind"]
@@ -187,6 +223,10 @@ def source_of(c, symbolic):
         return num(v)
     if c["kind"] == "meta":
         ops = ", ".join(("#" if h else "") + val(v) for h, v in c["ops"])
+        return (c["name"] + (" " + ops if ops else "")), syms
+    if c["kind"] == "lit":
+        # 'c : one character, "cc : two characters (no closing quote)
+        ops = ", ".join((("'" if len(x[1]) == 1 else '"') + "".join(chr(k) for k in x[1])) if x[0] == "l" else val(x[1]) for x in c["lops"])
         return (c["name"] + (" " + ops if ops else "")), syms
     if c["kind"] == "ascii":
         parts = []
@@ -380,6 +420,134 @@ def gen_wordlists(rng, tier):
     return cases
 
 
+
+# characters usable inside a 'c / "cc literal without any escaping
+def lit_ok(c):
+    return c > 32 and c not in (34, 39, 47, 92, 44, 59, 127) and not (0x80 <= c < 0xA1) and not (0xD800 <= c < 0xE000)
+
+
+LIT_EXTRA = [0x44F, 0x2500, 0x20AC, 0xE9, 0x1F600, 0x416, 0xFF, 0x100]
+
+
+def lit_pool(cs):
+    return [c for c in dict.fromkeys(ALPHA[cs] + BAD[cs] + LIT_EXTRA) if lit_ok(c)]
+
+
+def gen_literals(rng, tier):
+    """values written as character literals, in every charset: one and two characters, encodable in one, two or
+    more bytes, unencodable; alone and among numeric operands"""
+    cases = []
+    reps = 12 if tier == "quick" else 80
+    for cs in CHARSETS:
+        pool = lit_pool(cs)
+        singles = [[c] for c in pool]
+        doubles = [[a, b] for a in pool[:6] for b in (pool[0], pool[3 % len(pool)], pool[-1])] + [[c, c] for c in pool]
+        for name in (".byte", ".word", ".dword"):
+            for lit in singles + doubles:
+                cases.append({"t": "dirl", "kind": "lit", "name": name, "lops": [("l", lit)], "addr": 512, "charset": cs})
+            inside, outside = value_pool(rng, WIDTH[name])
+            for _ in range(reps):
+                k = rng.choice([1, 2, 3, 4])
+                lops = []
+                for _ in range(k):
+                    r = rng.random()
+                    if r < 0.55:
+                        lops.append(("l", rng.choice(singles + doubles)))
+                    elif r < 0.9:
+                        lops.append(("v", rng.choice(inside)))
+                    else:
+                        lops.append(("v", rng.choice(outside)))
+                cases.append({"t": "dirl", "kind": "lit", "name": rng.choice([name, name, {".byte": ".db", ".word": ".dw"}.get(name, name)]),
+                              "lops": lops, "addr": rng.choice([512, 513]), "charset": cs})
+    return cases
+
+
+def small_dir(rng, cs, refuse_p=0.0):
+    """one small data directive for a sequence / a .repeat body"""
+    r = rng.random()
+    bad = rng.random() < refuse_p
+    if r < 0.22:
+        k = rng.choice([0, 1, 1, 2, 3])
+        vals = [rng.choice([0, 1, 2, 127, 255, -1, -255]) for _ in range(k)]
+        if bad and k:
+            vals[rng.randrange(k)] = rng.choice([256, -256, 1000])
+        return {"kind": "meta", "name": rng.choice([".byte", ".byte", ".db"]), "ops": [(False, v) for v in vals]}
+    if r < 0.36:
+        k = rng.choice([0, 1, 1, 2])
+        vals = [rng.choice([0, 1, 0x1234, 65535, -2]) for _ in range(k)]
+        if bad and k:
+            vals[0] = 65536
+        return {"kind": "meta", "name": rng.choice([".word", ".word", ".dw"]), "ops": [(False, v) for v in vals]}
+    if r < 0.44:
+        return {"kind": "meta", "name": ".dword", "ops": [(False, rng.choice([0, 1, 0x12345678, -2]))] * rng.choice([0, 1, 1])}
+    if r < 0.52:
+        return {"kind": "meta", "name": ".even", "ops": []}
+    if r < 0.60:
+        return {"kind": "meta", "name": ".odd", "ops": []}
+    if r < 0.72:
+        return {"kind": "meta", "name": ".align", "ops": [(False, rng.choice([1, 2, 3, 4, 5, 8, 16] + ([0, -2] if bad else [])))]}
+    if r < 0.78:
+        return {"kind": "meta", "name": ".blkb", "ops": [(False, rng.choice([0, 1, 2, 3, 5] + ([-1] if bad else [])))]}
+    if r < 0.82:
+        return {"kind": "meta", "name": ".blkw", "ops": [(False, rng.choice([0, 1, 2]))]}
+    if r < 0.90:
+        chunks = [("s", [rng.choice([65, 66, 97, 48]) for _ in range(rng.choice([0, 1, 2, 3]))])]
+        if rng.random() < 0.4:
+            chunks.append(("c", rng.choice([0, 7, 255] + ([256] if bad else []))))
+        if bad and rng.random() < 0.5:
+            chunks.append(("s", [BAD[cs][0]]))
+        return {"kind": "ascii", "z": rng.random() < 0.5, "opsc": [chunks]}
+    if r < 0.95:
+        return {"kind": "wordlist", "ws": [rng.choice([0, 1, 2, 65535, -1]) for _ in range(rng.choice([1, 2]))]}
+    pool = lit_pool(cs)
+    lit = [rng.choice(pool) for _ in range(rng.choice([1, 2]))]
+    return {"kind": "lit", "name": rng.choice([".byte", ".word", ".dword"]), "lops": [("l", lit)] + ([("v", 3)] if rng.random() < 0.3 else [])}
+
+
+def gen_items(rng, tier):
+    """directives one after another and inside .repeat: each copy stands at the address where the bytes before
+    it end, so the parity / alignment seen by an address-dependent directive changes from copy to copy"""
+    cases = []
+
+    def byte_n(k, v=1):
+        return {"kind": "meta", "name": ".byte", "ops": [(False, (v + j) % 256) for j in range(k)]}
+    dep = [{"kind": "meta", "name": ".even", "ops": []}, {"kind": "meta", "name": ".odd", "ops": []},
+           {"kind": "meta", "name": ".align", "ops": [(False, 2)]}, {"kind": "meta", "name": ".align", "ops": [(False, 3)]},
+           {"kind": "meta", "name": ".align", "ops": [(False, 4)]}, {"kind": "meta", "name": ".align", "ops": [(False, 8)]},
+           {"kind": "meta", "name": ".word", "ops": [(False, 0x0102)]}, {"kind": "meta", "name": ".word", "ops": []},
+           {"kind": "meta", "name": ".dword", "ops": [(False, 2)]}, {"kind": "wordlist", "ws": [5, 6]}]
+    # every address-dependent directive x bytes before it (0-3) x bytes after it (0-1) x count 2-3 x both base parities:
+    # as a .repeat, and written out
+    for d in dep:
+        for pre in (0, 1, 2, 3):
+            for post in (0, 1):
+                body = ([byte_n(pre)] if pre else []) + [d] + ([byte_n(post, 9)] if post else [])
+                for n in (2, 3):
+                    for base in (512, 513):
+                        cases.append({"t": "items", "items": [("rep", n, body)], "addr": base, "charset": "bk"})
+                        if n == 2:
+                            cases.append({"t": "items", "items": [("one", x) for x in body + body], "addr": base, "charset": "bk"})
+    # the directive first in the body, the odd-sized tail after it; counts 0, 1, 4; something before and after the .repeat
+    for d in dep:
+        for n in (0, 1, 4):
+            cases.append({"t": "items", "items": [("one", byte_n(1)), ("rep", n, [d, byte_n(rng.choice([1, 3]))]), ("one", d)],
+                          "addr": rng.choice([512, 513]), "charset": "bk"})
+    cases.append({"t": "items", "items": [("rep", -1, [byte_n(1)])], "addr": 512, "charset": "bk"})
+    cases.append({"t": "items", "items": [("rep", 2, [])], "addr": 512, "charset": "bk"})
+    # seeded programs
+    for _ in range(150 if tier == "quick" else 1500):
+        cs = rng.choice(["bk", "bk", "utf-8", "koi8-r"])
+        refuse_p = rng.choice([0, 0, 0.08])
+        items = []
+        for _ in range(rng.choice([1, 2, 3, 4])):
+            if rng.random() < 0.5:
+                items.append(("rep", rng.choice([0, 1, 2, 2, 3, 4]), [small_dir(rng, cs, refuse_p) for _ in range(rng.choice([1, 2, 3, 4]))]))
+            else:
+                items.append(("one", small_dir(rng, cs, refuse_p)))
+        cases.append({"t": "items", "items": items, "addr": rng.choice([512, 513, 514, 515, 1000, 1001]), "charset": cs})
+    return cases
+
+
 def gen_scans(rng, tier):
     cases = []
     n = 150 if tier == "quick" else 1500
@@ -417,14 +585,17 @@ def all_cases(rng, tier):
     cs += gen_gai(rng, tier)
     cs += [{"t": "meta"}, {"t": "class"}]
     direct = gen_value_dirs(rng, tier) + gen_fills(rng, tier) + gen_ascii(rng, tier) + gen_wordlists(rng, tier)
+    lits = gen_literals(random.Random(rng.random()), tier)
+    direct += lits
     for c in direct:
         c["mode"] = "direct"
     cs += direct
     # end to end: a sample of the same abstract directives, printed with numeric literals, three kinds of prefix
     e2e = []
-    pick = [c for c in direct if not (c["kind"] == "meta" and c["name"] == ".align")]
+    pick = [c for c in direct if not (c["kind"] == "meta" and c["name"] == ".align") and c["kind"] != "lit"]
     rng2 = random.Random(rng.random())
     sample = rng2.sample(pick, min(len(pick), 700 if tier == "quick" else 5000))
+    sample += rng2.sample(lits, min(len(lits), 250 if tier == "quick" else 3000))
     aligns = [c for c in direct if c["kind"] == "meta" and c["name"] == ".align"]
     sample += rng2.sample(aligns, min(len(aligns), 300 if tier == "quick" else 5000))
     for c in sample:
@@ -444,6 +615,7 @@ def all_cases(rng, tier):
         e2e.append(e)
     cs += e2e
     cs += gen_scans(rng, tier)
+    cs += gen_items(random.Random(rng.random()), tier)
     return cs
 
 
@@ -462,6 +634,24 @@ def e2e_source(c):
     return line + "\n", 0
 
 
+def stmt_line(d):
+    line, _ = source_of(d, symbolic=False)
+    # a line that starts with an infix operator would continue the expression of the line before it
+    return "0" + line if line.startswith("-") else line
+
+
+def items_source(c):
+    lines = [f".link {c['addr']}."]
+    for it in c["items"]:
+        if it[0] == "one":
+            lines.append(stmt_line(it[1]))
+        else:
+            lines.append(f".repeat {num(it[1])} {{")
+            lines += ["    " + stmt_line(d) for d in it[2]]
+            lines.append("}")
+    return "\n".join(lines) + "\n", 0
+
+
 def observe(cases):
     """run the implementation on every case; returns the list of observations"""
     obs = [None] * len(cases)
@@ -470,10 +660,10 @@ def observe(cases):
     for i, c in enumerate(cases):
         if c["t"] == "gai":
             jobs.append(("gai", (c["b"], c["u"], c["d"], c["v"])))
-        elif c["t"] == "dir" and c["mode"] == "direct":
+        elif c["t"] in ("dir", "dirl") and c["mode"] == "direct":
             # numeric directives get their operands as symbols defined after compile_insn (so the bytes are
             # deferred and the announced size is observable); .ascii / word lists carry numeric literals
-            src, syms = source_of(c, symbolic=(c["kind"] == "meta"))
+            src, syms = source_of(c, symbolic=(c["kind"] in ("meta", "lit")))
             c["src"] = src
             jobs.append(("drive", (src + "\n", syms, c["addr"], c["charset"])))
         elif c["t"] == "scan":
@@ -493,10 +683,10 @@ def observe(cases):
         elif c["t"] == "class":
             obs[i] = D.char_classes()
     # end to end
-    sel = [i for i, c in enumerate(cases) if c["t"] == "dir" and c["mode"] == "e2e"]
+    sel = [i for i, c in enumerate(cases) if (c["t"] in ("dir", "dirl") and c["mode"] == "e2e") or c["t"] == "items"]
     jobs = []
     for i in sel:
-        src, plen = e2e_source(cases[i])
+        src, plen = items_source(cases[i]) if cases[i]["t"] == "items" else e2e_source(cases[i])
         cases[i]["src"] = src
         cases[i]["plen"] = plen
         jobs.append((([("t.mac", src)],), {"charset": cases[i]["charset"]}))
@@ -541,7 +731,7 @@ def safe(x):
 
 
 def describe(c, o):
-    d = {k: safe(c[k]) for k in c if k in ("t", "mode", "kind", "name", "ops", "opsc", "z", "ws", "addr", "charset", "src", "b", "u", "d", "v", "q", "text", "prefix")}
+    d = {k: safe(c[k]) for k in c if k in ("t", "mode", "kind", "name", "ops", "opsc", "lops", "items", "z", "ws", "addr", "charset", "src", "b", "u", "d", "v", "q", "text", "prefix")}
     if c["t"] == "meta":
         d["directive"] = o.get("name")
         d["announced_sizes_for_0_to_8_operands"] = o.get("sizes")
@@ -564,8 +754,10 @@ def case_for_replay(c):
 def signature(c, o):
     if c["t"] == "gai":
         return f"get_as_int(bitness={c['b']}, unsigned={c['u']}, default={c['d']}, value={c['v']})"
-    if c["t"] == "dir":
+    if c["t"] in ("dir", "dirl"):
         return safe(f"{c['mode']}:{c['charset']}:{c['addr']}:{c.get('src', '').strip()[:120]}")
+    if c["t"] == "items":
+        return safe(f"program:{c['charset']}:{c.get('src', '').strip()[:200]}")
     if c["t"] == "scan":
         return f"string:{c['q']}:{c['text'][:40]}"
     if c["t"] == "meta":
@@ -577,6 +769,8 @@ WHAT = {
     "gai": "get_as_int: a value outside the field was not refused, or an accepted value was not reduced modulo 2^n (reference arithmetic judged in Coq: Run.C06Ref.ref_gai)",
     "dir": "the directive's bytes / refusal contradict Spec/DataSpec.v (judged in Coq: Run.C06Ref.prop_dir, prop_announce)",
     "scan": "reading back the canonical spelling of a string does not give the string (judged in Coq: Run.C06Ref.prop_scan)",
+    "dirl": "a value written as a character literal: the directive's bytes / refusal contradict Spec/DataBlockSpec.v (the literal is the little-endian number of its bytes in the output charset; more than two bytes or an unencodable character must be refused) (judged in Coq: Run.C06Ref.prop_items)",
+    "items": "directives one after another / inside .repeat: the image is not the images the Spec states for each copy at the address where the bytes before it end, or a copy that must be refused was not (judged in Coq: Run.C06Ref.prop_items, Spec.DataBlockSpec.items_image)",
     "meta": "announced size of a value directive is not width * max(operand count, 1) (judged in Coq: Run.C06Ref.ref_sizes)",
 }
 
@@ -591,6 +785,8 @@ def record(rep, flat, codes, corr=True):
                           "meta": "GenMeta.meta_table vs introspection of the Metacommand objects",
                           "dir": "Model.Directives.emit / announced vs the real directive (" + c.get("mode", "") + ")",
                           "scan": "Model.Directives.unescape vs parser.quoted_string",
+                          "dirl": "Model.DirectivesSeq.emit_lit / announcedx vs the real directive with literal operands (" + c.get("mode", "") + ")",
+                          "items": "Model.DirectivesSeq.items_run vs the assembled program",
                           "class": "py_space / esc_lower vs str.strip / str.lower over all code points"}[c["t"]],
                          describe(c, o), impl=short_obs(o))
         if code & 2:
@@ -617,6 +813,12 @@ def account(rep, cases, obs):
                     rep.nontrivial((c["mode"], "ascii", c["z"], repr(c["opsc"]), c["charset"]))
             else:
                 rep.nontrivial((c["mode"], "wl", tuple(c["ws"]), c["addr"] % 2))
+        elif t == "dirl":
+            rep.count(f"{c['mode']}:literal-operands:{c['charset']}:{o.get('kind')}")
+            rep.nontrivial((c["mode"], "lit", c["name"], repr(c["lops"]), c["addr"] % 2, c["charset"]))
+        elif t == "items":
+            rep.count("program:" + ("repeat" if any(it[0] == "rep" for it in c["items"]) else "sequence") + ":" + str(o.get("kind")))
+            rep.nontrivial(("items", repr(c["items"]), c["addr"], c["charset"]))
         elif t == "scan":
             rep.count("string:" + o.get("kind", "?"))
             if 92 in c["text"]:
@@ -707,6 +909,20 @@ def replay(data):
         c["opsc"] = [[tuple(x) for x in ch] for ch in c["opsc"]]
     if c.get("expect") is not None:
         c["expect"] = tuple(c["expect"])
+
+    def fix_dir(d):
+        d = dict(d)
+        if "ops" in d:
+            d["ops"] = [tuple(x) for x in d["ops"]]
+        if "opsc" in d:
+            d["opsc"] = [[tuple(x) for x in ch] for ch in d["opsc"]]
+        if "lops" in d:
+            d["lops"] = [tuple(x) for x in d["lops"]]
+        return d
+    if "lops" in c:
+        c["lops"] = [tuple(x) for x in c["lops"]]
+    if "items" in c:
+        c["items"] = [("one", fix_dir(it[1])) if it[0] == "one" else ("rep", it[1], [fix_dir(d) for d in it[2]]) for it in c["items"]]
     obs = observe([c])
     flat = expand([c], obs)
     codes = evaluate(flat, requires=REQUIRES_REF, judge="map judge_ref cases")
